@@ -42,6 +42,17 @@ def models(name):
         "spin_two_fermions": dict(modes=[sm, c, d], H0=wq * pauli.SigmaZ("s") / 2 + ec * Dagger(c) * c + ed * Dagger(d) * d, H1=(sm + sp) * (Dagger(c) * d + Dagger(d) * c) + sp * c * d + Dagger(d) * Dagger(c) * sm),
         "boson_ladder": dict(modes=[a, l], H0=w * Na + wb * NumberOperator(l), H1=Dagger(a) * l + Dagger(l) * a + (a + Dagger(a)) * (l + Dagger(l))),
         "floquet_2x2": dict(modes=[l], H0=sympy.Matrix([[w * NumberOperator(l), 0], [0, w * NumberOperator(l) + D]]), H1=sympy.Matrix([[0, l + Dagger(l)], [l + Dagger(l), l + Dagger(l)]]), blocks=[0, 1]),
+        "two_spins": dict(modes=[sm, pauli.SigmaMinus("t")], H0=wq * pauli.SigmaZ("s") / 2 + w * pauli.SigmaZ("t") / 2,
+                          H1=pauli.SigmaX("s") * pauli.SigmaX("t") + pauli.SigmaX("s") + pauli.SigmaY("t")),
+        "jc_mask_counter_rotating": dict(modes=[a, sm], H0=w * Na + wq * pauli.SigmaZ("s") / 2, H1=(a + Dagger(a)) * (sm + sp), fd=a * sm + Dagger(a) * sp),
+        "two_bosons_mask": dict(modes=[a, b], H0=w * Na + wb * Nb, H1=(a + Dagger(a)) * (b + Dagger(b)), fd=a * b + Dagger(a) * Dagger(b)),
+        # complex (Gaussian-number) couplings
+        "boson_complex_drive": dict(modes=[a], H0=w * Na + al * Na * Na, H1=(1 + 2 * sympy.I) * a + (1 - 2 * sympy.I) * Dagger(a) + sympy.I * (a * a - Dagger(a) * Dagger(a))),
+        "boson_complex_harmonic": dict(modes=[a], H0=w * Na, H1=(1 + 2 * sympy.I) * a + (1 - 2 * sympy.I) * Dagger(a) + sympy.I * (a * a - Dagger(a) * Dagger(a))),
+        "fermion_complex_hop": dict(modes=[c, d], H0=ec * Dagger(c) * c + ed * Dagger(d) * d, H1=(1 + sympy.I) * Dagger(c) * d + (1 - sympy.I) * Dagger(d) * c + sympy.I * (c * d - Dagger(d) * Dagger(c))),
+        "rabi_y": dict(modes=[a, sm], H0=w * Na + wq * pauli.SigmaZ("s") / 2, H1=sympy.I * (Dagger(a) - a) * pauli.SigmaY("s") + (a + Dagger(a)) * pauli.SigmaX("s") + pauli.SigmaY("s")),
+        "matrix_complex": dict(modes=[a], H0=sympy.Matrix([[w * Na, 0], [0, w * Na + D]]), H1=sympy.Matrix([[a + Dagger(a), (1 + sympy.I) * a + Dagger(a)], [(1 - sympy.I) * Dagger(a) + a, sympy.I * (a - Dagger(a))]]), blocks=[0, 1]),
+        "spin_boson_fermion": dict(modes=[a, sm, c], H0=w * Na + wq * pauli.SigmaZ("s") / 2 + ec * Dagger(c) * c, H1=(a + Dagger(a)) * pauli.SigmaX("s") + Dagger(c) * c * pauli.SigmaY("s") + (c + Dagger(c)) * (a + Dagger(a))),
         "ladder_drive": dict(modes=[l, sm], H0=w * NumberOperator(l) + wq * pauli.SigmaZ("s") / 2, H1=(l + Dagger(l)) * (sm + sp)),
         # selective elimination: only the two-photon terms are eliminated, one-photon terms are kept
         "mask_two_photon": dict(modes=[a], H0=w * Na, H1=(a + Dagger(a)) + (a * a + Dagger(a) * Dagger(a)), fd=a**2 + Dagger(a) ** 2),
@@ -159,7 +170,7 @@ def c07(cfg):
     except Exception as e:
         from .herm import library_exception_info
 
-        is_lib, where = library_exception_info(e)
+        is_lib, where = library_exception_info(e, pure_inputs=True)
         if not is_lib:
             raise
         rec.direct_violation("library raised on a well-posed second-quantised input", sig + f":raised-{type(e).__name__}",
@@ -401,11 +412,15 @@ def configs(tier):
     quick = [("anharmonic3", 3), ("anharmonic4", 2), ("displaced", 3), ("kerr_drive", 2), ("two_bosons", 2), ("rabi", 3), ("jc_detuned", 2),
              ("fermion_hop2", 3), ("fermion_pair3", 2), ("fermion_interaction", 2), ("holstein", 2), ("ladder_drive", 2),
              ("mask_two_photon", 2), ("mask_one_photon", 2), ("matrix_2x2", 2), ("matrix_1block", 2),
-             ("spin_fermion", 3), ("spin_two_fermions", 2), ("boson_ladder", 2), ("floquet_2x2", 2)]
+             ("spin_fermion", 3), ("spin_two_fermions", 2), ("boson_ladder", 2), ("floquet_2x2", 2),
+             ("two_spins", 3), ("jc_mask_counter_rotating", 2), ("two_bosons_mask", 2),
+             ("boson_complex_drive", 2), ("fermion_complex_hop", 3), ("rabi_y", 2), ("matrix_complex", 2), ("spin_boson_fermion", 2)]
     thorough = [("anharmonic3", 4), ("anharmonic4", 3), ("displaced", 4), ("kerr_drive", 3), ("two_bosons", 3), ("rabi", 4), ("jc_detuned", 3),
                 ("fermion_hop2", 4), ("fermion_pair3", 3), ("fermion_interaction", 3), ("holstein", 3), ("ladder_drive", 3),
                 ("mask_two_photon", 3), ("mask_one_photon", 2), ("matrix_2x2", 3), ("matrix_1block", 3),
-                ("spin_fermion", 4), ("spin_two_fermions", 3), ("boson_ladder", 3), ("floquet_2x2", 3)]
+                ("spin_fermion", 4), ("spin_two_fermions", 3), ("boson_ladder", 3), ("floquet_2x2", 3),
+                ("two_spins", 4), ("jc_mask_counter_rotating", 3), ("two_bosons_mask", 3),
+                ("boson_complex_drive", 2), ("boson_complex_harmonic", 3), ("fermion_complex_hop", 4), ("rabi_y", 3), ("matrix_complex", 3), ("spin_boson_fermion", 3)]
     for name, mo in quick if tier == "quick" else thorough:
         cfgs.append(dict(model=name, max_order=mo, _timeout_s=300 if tier == "quick" else 1500))
     return [("vf.props.secondq", "c07", c) for c in cfgs]
